@@ -894,6 +894,14 @@ def runFull (std : Stdlib) (c : Json) : R (Json × Option Json × Option String)
   | "eval" => runEval std c
   | "unpack" => runUnpack std c
   | "roundtrip" => runRoundtrip std c
+  | "catalog" => do
+    -- a named Go type with methods: the model describes its method-less twin, pre-filled with what the harness
+    -- reports InitDefaults to have put there
+    let impl := (optField c "impl").getD .null
+    let c' := c.setObjVal! "old" ((optField impl "twinOld").getD ((optField c "old").getD .null))
+    let c' := c'.setObjVal! "impl" ((optField impl "twin").getD .null)
+    let (m, o, _) ← runUnpack std c'
+    pure (Json.mkObj [("twin", m)], o, none)
   | "load" | "frontends" => pure (Json.mkObj [("unmodelled", .bool true)], none, none)
   | _ => do pure ((← runCase std c), none, none)
 
